@@ -20,7 +20,8 @@ RULE = ("x of size 1..200 (floats over 9 decades, pools of <=6 values, integer-v
         "through Binner.dohist (rev on/off, calc_stats inline or called later) and histogram(more=True | weights=); "
         "equal-occupancy binning nperbin in 1..N x mergelast on/off x min/max through both entry points. "
         "Non-trivial: fixed-width with >=1 empty bin and >=1 single-member bin and >=1 bin with >=2 members; "
-        "or nperbin with a non-zero remainder. Distinct = distinct case JSON.")
+        "or nperbin with a non-zero remainder. Distinct = distinct case JSON."
+        " x/y/weights are handed over as contiguous, strided, negative-stride, record-field or byte-swapped arrays; the Binner may have been used once with other limits before the judged call.")
 ASSUMPTIONS = [
     "finite data, |x|,|y| <= 1e9; weights >= 0 with positive total; weighted quantities are constrained only "
     "for bins whose total weight is positive (a bin of zero-weight members has no defined weighted mean)",
